@@ -114,7 +114,9 @@ def children(n):
             if type(v).__mro__[1].__name__ in SKIP_SORTS:
                 continue
             yield f, v
-        elif isinstance(v, list):
+        elif isinstance(v, (list, tuple)):
+            # a tuple-valued field is not entered by ast.NodeTransformer / ast.iter_child_nodes, but it is
+            # unparsed and executed like a list-valued one: the observer looks at what runs
             for x in v:
                 if isinstance(x, ast.AST):
                     yield f, x
@@ -251,12 +253,16 @@ def export_tree(n):
 
 # ------------------------------------------------------------------ running the implementation
 
+REUSE_OBSERVATIONS = True
+
+
 class Impl(object):
     """The implementation under test, in-process."""
 
     def __init__(self, tmp):
         self.tmp = tmp
         self.n = 0
+        self.reordered = 0
         from malt.impl import api
         from malt.core import converter
         from malt.pyct import transpiler
@@ -294,6 +300,7 @@ class Impl(object):
         class Rec(object):
             def __enter__(s):
                 s.saved = []
+                s.last = None
                 for pname, _, _ in passes:
                     modname, cname = pname.split('.')
                     mod = importlib.import_module('malt.converters.' + modname)
@@ -308,13 +315,19 @@ class Impl(object):
                         if getattr(self_, '_c04_active', False) or not isinstance(node, ast.AST):
                             return _orig(self_, node)
                         self_._c04_active = True
-                        before = observe(node, output=True)
+                        # the tree a pass receives is the tree the previous pass returned (the analyses run in
+                        # between only annotate): its observation is reused
+                        before = s.last[1] if REUSE_OBSERVATIONS and s.last is not None and s.last[0] is node \
+                            else observe(node, output=True)
+                        s.last = None
                         try:
                             res = _orig(self_, node)
                         finally:
                             self_._c04_active = False
                         if isinstance(res, ast.AST):
-                            sink.append((_pname, before, observe(res, output=True)))
+                            after = observe(res, output=True)
+                            s.last = (res, after)
+                            sink.append((_pname, before, after))
                         return res
                     cls.visit = visit
                 return s
@@ -404,6 +417,31 @@ EXPR_STMT_CTX += [
     ('ClassDef.body.lambda', 'class K:\n    v = (lambda y: {H})', False),
     ('ClassDef.nested class', 'class K:\n    class L:\n        def m(self):\n            return {H}', False),
     ('ClassDef.after', 'class K:\n    v = 1\nx = {H}', False),
+]
+
+# operands of overloaded stores and of the list operations (Feature.LISTS rewrites them; without it they stay
+# plain stores): index / slice / multi-dimensional / nested-container / attribute-container stores, unpacking
+# targets, augmented stores, deletes, loop targets, append / pop / stack
+EXPR_STMT_CTX += [
+    ('Subscript.store.value', 'd[0] = {H}', False), ('Subscript.store.attr', 'g.v[{H}] = 1', False),
+    ('Slice.store.lower', 'xs[{H}:2] = d', False), ('Slice.store.upper', 'xs[0:{H}] = d', False),
+    ('Slice.store.step', 'xs[::{H}] = d', False), ('Slice.store.value', 'xs[0:2] = {H}', False),
+    ('Slice.store.attr', 'g.v[{H}:] = d', False),
+    ('Subscript.store.nested', 'd[0][{H}] = 1', False), ('Slice.store.nested', 'd[0][{H}:] = xs', False),
+    ('Subscript.store.multi', 'd[{H}, 1] = 1', False), ('Slice.store.multi', 'd[{H}:2, 1] = 1', False),
+    ('Subscript.store.unpack', 'xs[{H}], x = d', False), ('Slice.store.unpack', 'xs[{H}:], x = d', False),
+    ('List.store', '[x, d[{H}]] = xs', False),
+    ('AugAssign.subscript', 'd[{H}] += 1', False), ('AugAssign.subscript.value', 'd[0] += {H}', False),
+    ('AugAssign.slice', 'xs[{H}:] += d', False), ('AugAssign.attr', '{H}.v += 1', False),
+    ('Delete.slice.lower', 'del xs[{H}:2]', False),
+    ('For.target.subscript', 'for d[{H}] in xs:\n    x = 1', False),
+    ('list.append', 'xs.append({H})', False), ('list.append.attr', 'g.v.append({H})', False),
+    ('list.pop', 'x = xs.pop({H})', False), ('list.pop.nested', 'x = g(xs.pop(), {H})', False),
+    ('list.stack', 'x = g.stack({H})', False),
+]
+EXPR_CTX += [
+    ('Slice.step', 'xs[::{H}]', False), ('Slice.multi', 'd[{H}:2, 1]', False),
+    ('Subscript.slice.attr', 'g.v[{H}]', False), ('List.elts.nested', '[[{H}], 1]', False),
 ]
 
 STMT_CTX = [
@@ -496,7 +534,9 @@ def catalogue(seed, tier):
                                                              'While.test', 'arguments.defaults', 'Expr.value',
                                                              'FunctionDef.decorator_list', 'ClassDef.body',
                                                              'ClassDef.method', 'ClassDef.method.nested def',
-                                                             'ClassDef.method.lambda', 'ClassDef.method.for')],
+                                                             'ClassDef.method.lambda', 'ClassDef.method.for',
+                                                             'Slice.store.lower', 'AugAssign.subscript',
+                                                             'list.append')],
             EXPR_CTX, EXPR_CTX):
         combos.append((sn, sc, en, ec, ex0, c1n, c1, ex1, c2n, c2, ex2))
     rnd.shuffle(combos)
@@ -542,11 +582,36 @@ DYN_HEAD = 'def f(T, g, cm, xs, o):\n    acc = 0\n'
 class DynGen(object):
     """Random executable programs; every user construct is built around a call T(k, v) of the tracer."""
 
-    def __init__(self, rnd):
+    def __init__(self, rnd, stores=False):
         self.rnd = rnd
         self.k = 0
         self.roles = {}
         self.vars = ['acc', 'u', 'v']
+        self.stores = stores      # second stream: also stores through subscripts and list operations
+
+    def store(self):
+        """a statement that stores through a subscript of a local list (index / slice / augmented), appends or
+        pops, with tracer calls and other overloadable constructs as the operands of the store"""
+        r = self.rnd
+        self.k += 1
+        ys = 'ys%d' % self.k
+        idx = lambda: self.t('plain', r.choice(['0', '1', '2']))     # noqa
+        bound = lambda: r.choice([idx(), idx(), '', '(%s if %s else 1)' % (idx(), self.t('ifexp-test', '1')),   # noqa
+                                  'g(%s)' % idx()])
+        c = r.randrange(7)
+        if c == 0:
+            st = '%s[%s] = %s' % (ys, idx(), self.expr(1))
+        elif c in (1, 2):
+            st = '%s[%s:%s] = [%s, %s]' % (ys, bound(), bound(), self.expr(1), self.expr(1))
+        elif c == 3:
+            st = '%s[%s::%s] = [%s]' % (ys, idx(), self.t('plain', '4'), self.expr(1))
+        elif c == 4:
+            st = '%s[%s] %s int(bool(%s))' % (ys, idx(), r.choice(['+=', '-=', '*=']), self.expr(1))
+        elif c == 5:
+            st = '%s.append(%s)' % (ys, self.expr(1))
+        else:
+            st = 'acc = acc + int(bool(%s.pop())) + int(bool(%s))' % (ys, self.expr(1))
+        return '%s = [0, 1, 2, 3]\n%s\nacc = acc + len(%s) + int(bool(%s[0]))' % (ys, st, ys, ys)
 
     def t(self, role, val):
         self.k += 1
@@ -589,6 +654,8 @@ class DynGen(object):
 
     def stmt(self, d, in_loop, in_def):
         r = self.rnd
+        if self.stores and r.randrange(3) == 0:
+            return self.store()
         c = r.randrange(16 if d > 0 else 2)
         if c <= 1:
             return 'acc = acc + int(bool(%s))' % self.expr(2)
@@ -633,8 +700,8 @@ class DynGen(object):
         return 'acc = acc + int(bool(%s))' % self.expr(2)
 
 
-def dyn_program(rnd):
-    g = DynGen(rnd)
+def dyn_program(rnd, stores=False):
+    g = DynGen(rnd, stores)
     body = g.block(3, False, False)
     src = DYN_HEAD + indent(body) + '\n    return acc\n'
     return src, g.roles
@@ -667,7 +734,7 @@ class _CM(object):
         return False
 
 
-def run_dynamic(impl, src, roles, check_operators=True):
+def run_dynamic(impl, src, roles, check_operators=True, feats=()):
     """-> (status, detail).  status: ok | routing | diverged | error"""
     import malt
     mod = impl.load(src)
@@ -678,8 +745,9 @@ def run_dynamic(impl, src, roles, check_operators=True):
     except Exception as e:   # noqa
         return 'error', 'original raised %s' % type(e).__name__
     try:
-        conv = malt.to_graph(mod.f, recursive=False)
-        code = malt.to_code(mod.f, recursive=False)
+        opt = tuple(getattr(impl.converter.Feature, x) for x in feats) or None
+        conv = malt.to_graph(mod.f, recursive=False, experimental_optional_features=opt)
+        code = malt.to_code(mod.f, recursive=False, experimental_optional_features=opt)
     except Exception as e:   # noqa
         return 'error', 'conversion raised %s: %s' % (type(e).__name__, str(e)[:200])
     agm = impl.api._TRANSPILER.get_extra_locals()['ag__']
@@ -744,7 +812,7 @@ def run_dynamic(impl, src, roles, check_operators=True):
         if role == 'while-test' and not e[3]:
             problems.append('`while T(%d, ..)` test evaluated outside ag__.while_stmt' % k)
     try:
-        surv = survivors(observe(ast.parse(code), output=True), False)
+        surv = survivors(observe(ast.parse(code), output=True), bool({'BUILTIN_FUNCTIONS', 'ALL'} & set(feats)))
     except SyntaxError:
         surv = []
     for o in surv:
@@ -757,8 +825,31 @@ def run_dynamic(impl, src, roles, check_operators=True):
     if problems:
         return 'routing', {'problems': problems[:5], 'generated_code': code}
     if [e[1] for e in tl] != [e[1] for e in tr0.log] or got != want:
+        if feats and got == want and sorted(e[1] for e in tl) == sorted(e[1] for e in tr0.log):
+            # same executions in another order: the store lowering of Feature.LISTS evaluates the subscript
+            # before the stored value (evaluation order is a C01 matter); counted, judged like an equal run
+            impl.reordered += 1
+            return 'ok', len(tl)
         return 'diverged', 'marker sequence / result differs from the original run (semantic matter, not judged here)'
     return 'ok', len(tl)
+
+
+def runnable_features(impl):
+    """The optional features under which generated code can be executed at all in this port (a feature whose
+    trivial program already fails at run time -- NAME_SCOPES: "name scopes are not supported" -- is left to the
+    static oracle)."""
+    import malt
+    mod = impl.load('def f(a):\n    return a + 1\n')
+    out = []
+    for ft in impl.converter.Feature:
+        if ft.name == 'ALL':
+            continue
+        try:
+            if malt.to_graph(mod.f, recursive=False, experimental_optional_features=(ft,))(1) == 2:
+                out.append(ft.name)
+        except Exception:   # noqa
+            pass
+    return out
 
 
 # ------------------------------------------------------------------ table lookups (Python mirror, for probing)
@@ -770,7 +861,7 @@ def resolve_entries(entries, feats):
         used = g[0] in feats or 'ALL' in feats
         return used == g[1]
     out = {}
-    for kind, g, allf, fields, rw, intro in entries:
+    for kind, g, allf, fields, rw, intro, _hide in entries:
         if on(g) and kind not in out:
             out[kind] = (allf, fields, rw, intro)
     return out
@@ -778,6 +869,63 @@ def resolve_entries(entries, feats):
 
 def gate_on(g, feats):
     return g is None or (g in feats) or ('ALL' in feats)
+
+
+# ------------------------------------------------------------------ option sets
+
+# when the translator failed: the kinds a feature-gated pass is assumed to rewrite
+FALLBACK_TOUCHED = {'kinds': {'Assign', 'AugAssign', 'Subscript', 'List', 'Call', 'Assert'}, 'markers': {'Call.print'}}
+
+
+def touched_by_feature(passes):
+    """feature -> {'kinds': node classes that a pass (or table entry) gated by the feature may rewrite,
+                   'markers': construct kinds whose own treatment is gated by the feature}  -- read off the
+    extracted tables, so that the sweep follows the gating of the current source."""
+    out = {}
+    for pname, gate, entries in passes:
+        for e in entries:
+            kind, g, rw = e[0], e[1], e[4]
+            if gate is not None and rw != 'Never':
+                out.setdefault(gate, {'kinds': set(), 'markers': set()})['kinds'].add(kind.split('.')[0])
+            if g is not None:
+                out.setdefault(g[0], {'kinds': set(), 'markers': set()})['markers'].add(kind)
+    return out
+
+
+def marker_steps(p):
+    """(class of ancestor, field, ancestor) for every strict ancestor of the planted construct(s) of a catalogue
+    program."""
+    if 'steps' in p:
+        return p['steps']
+    mk, mid = MARKER_KIND[p['marker']], MARKER_IDS[p['marker']]
+    out = []
+
+    def walk(n, path):
+        if mid is not None and kind_of(n, None, set(), False) == mk and marker_id(n) == mid:
+            out.extend(path)
+        for f, c in children(n):
+            walk(c, path + ((type(n).__name__, f, n),))
+    walk(ast.parse(p['src']), ())
+    p['steps'] = out
+    return out
+
+
+def _plain_value(n, f):
+    """the value of an assignment to plain names: moved by no store lowering"""
+    if isinstance(n, ast.Assign) and f == 'value':
+        return all(isinstance(t, ast.Name) for t in n.targets)
+    return isinstance(n, ast.AugAssign) and f == 'value' and isinstance(n.target, ast.Name)
+
+
+def relevant_to(p, feature, touched):
+    """Is the planted construct of program p treated differently, or does it sit below a node that may be
+    rewritten, when `feature` is in use."""
+    t = touched.get(feature)
+    if t is None:
+        return False
+    if MARKER_KIND[p['marker']] in t['markers']:
+        return True
+    return any(k in t['kinds'] and not _plain_value(n, f) for k, f, n in marker_steps(p))
 
 
 # ------------------------------------------------------------------ check
@@ -801,8 +949,13 @@ def _check(run, tmp):
                 'expression, and, or, not; if, while, for, break, continue, return) planted in every syntactic '
                 'position (49 statement-level expression positions incl. 19 inside local classes, 41 expression positions, '
                 '16 block positions incl. methods of local classes; '
-                'exhaustive at depth 1-2, seeded sample of deeper nestings) x option sets {(), BUILTIN_FUNCTIONS}; '
-                'plus seeded random executable programs for the dynamic oracle; distinct non-trivial = distinct '
+                'plus 29 operand positions of stores through subscripts / slices / augmented stores / list operations; '
+                'exhaustive at depth 1-2, seeded sample of deeper nestings) x option sets {(), each feature that gates a '
+                'pass or a table entry of the current source alone, ALL, the non-gating features together}: full sweep '
+                'without options, under an option set the programs whose planted construct the feature concerns '
+                '(read off the extracted tables) plus a fixed fraction of the rest; '
+                'plus seeded random executable programs for the dynamic oracle (a second stream with stores and list '
+                'operations under seeded option sets); distinct non-trivial = distinct '
                 '(pass, parent kind, field, construct) observations of a real pass + distinct programs whose '
                 'planted construct was reached')
     # 1. regenerate
@@ -823,7 +976,32 @@ def _check(run, tmp):
 
     # ---- programs
     progs = catalogue(run.seed, run.tier)
-    feature_sets = [(), ('BUILTIN_FUNCTIONS',)]
+    # option sets: none; each feature that gates a pass or a table entry of the CURRENT source, alone; ALL; and the
+    # features that gate nothing, together.  Under a non-empty option set the full sweep covers the programs whose
+    # planted construct the feature concerns (relevant_to, read off the extracted tables) plus a fixed fraction
+    # of the others.
+    all_features = [f.name for f in impl.converter.Feature if f.name != 'ALL']
+    if meta is not None:
+        gating = [f for f in meta['features'] if f in all_features]
+        touched = touched_by_feature(passes)
+    else:
+        gating = ['ASSERT_STATEMENTS', 'BUILTIN_FUNCTIONS', 'LISTS']
+        touched = {f: FALLBACK_TOUCHED for f in gating}
+    others = tuple(f for f in all_features if f not in gating)
+    feature_sets = [()] + [(f,) for f in gating] + [('ALL',)] + ([others] if others else [])
+    run.extra['option_sets'] = [list(fs) for fs in feature_sets]
+
+    def selected(p, feats):
+        if not feats:
+            return True
+        if feats == ('BUILTIN_FUNCTIONS',) and p['idx'] % (17 if quick else 2) == 0:
+            return True
+        if p['idx'] % (29 if quick else 5) == 0:
+            return True
+        rel = any(relevant_to(p, f, touched) for f in (gating if 'ALL' in feats else feats))
+        if rel and quick and 'ALL' in feats:
+            return p['idx'] % 3 == 1      # ALL: a third of what the single features sweep
+        return rel
     mods = []
     for i in range(0, len(progs), 200):
         chunk = progs[i:i + 200]
@@ -843,12 +1021,13 @@ def _check(run, tmp):
     for feats in feature_sets:
         fl = list(feats)
         for p in progs:
-            if feats and p['marker'] != 'Call.print' and (p['idx'] % (17 if quick else 2)):
-                continue          # BUILTIN_FUNCTIONS only changes print: full sweep of print, a seventh of the rest
+            if not selected(p, feats):
+                continue
             sink = []
             try:
                 if passes is not None and not p['name'].startswith('vocab:') and (
-                        not quick or p['name'].count('/') <= 1 or p['idx'] % 4 == 0):
+                        not quick or p['name'].count('/') <= (1 if feats in ((), ('BUILTIN_FUNCTIONS',)) else 0)
+                        or p['idx'] % 4 == 0):
                     with impl.recording(passes, sink):
                         out = impl.convert_ast(p['fn'], fl)
                 else:
@@ -857,7 +1036,7 @@ def _check(run, tmp):
                 conv_errors.setdefault('%s: %s' % (type(e).__name__, str(e).split('\n')[0][:80]), []).append(p['name'])
                 continue
             run.count()
-            builtin_on = 'BUILTIN_FUNCTIONS' in feats
+            builtin_on = 'BUILTIN_FUNCTIONS' in feats or 'ALL' in feats
             obs_out = observe(out, output=True)
             surv = survivors(obs_out, builtin_on)
             kinds = sorted(set(o[0] for o in surv))
@@ -922,6 +1101,8 @@ def _check(run, tmp):
                             'routing_generated_partial: ' + c[4]['name'])
 
     t_corr = time.time() - run.t0
+    run.extra['tie'] = {'translator': tie_msg or 'ok', 'probed_tables': probe_bad[:6] or 'agree',
+                        'model_vs_implementation': corr_bad or 'agree'}
     # ---- 4b: dynamic oracle
     rnd = random.Random(run.seed * 7919 + 13)
     ndyn = 80 if quick else 1000
@@ -929,10 +1110,23 @@ def _check(run, tmp):
     markers = 0
     div_example = None
     div_reasons = {}
-    for i in range(ndyn):
-        src, roles = dyn_program(rnd)
+    # second stream: programs with stores through subscripts and list operations, under seeded option sets
+    # drawn from the features generated code can run under (every second one has LISTS)
+    rnd2 = random.Random(run.seed * 104729 + 7)
+    pool = runnable_features(impl)
+    nstore = 30 if quick else 400
+    run.extra['dynamic_option_pool'] = pool
+    for i in range(ndyn + nstore):
+        dfeats = ()
+        if i < ndyn:
+            src, roles = dyn_program(rnd)
+        else:
+            src, roles = dyn_program(rnd2, stores=True)
+            dfeats = tuple(f for f in pool if rnd2.random() < 0.4)
+            if i % 2 == 0 and 'LISTS' in pool and 'LISTS' not in dfeats:
+                dfeats = tuple(sorted(dfeats + ('LISTS',)))
         try:
-            status, detail = run_dynamic(impl, src, roles)
+            status, detail = run_dynamic(impl, src, roles, feats=dfeats)
         except Exception as e:   # noqa
             status, detail = 'error', 'harness: %s %s' % (type(e).__name__, e)
         stats[status] += 1
@@ -943,9 +1137,12 @@ def _check(run, tmp):
         elif status == 'routing':
             code = detail['generated_code']
             known = _only_known_ifexp(code)
-            failures.append({'title': 'a user construct executed natively: ' + detail['problems'][0],
+            failures.append({'title': 'a user construct executed natively: ' + detail['problems'][0] + (
+                                 ' (options %s)' % ', '.join(dfeats) if dfeats else ''),
                              'classify': KNOWN_IFEXP if known else None,
-                             'replay': {'program': src, 'call': 'f(T, g, cm, [1, 2]) with T the tracer of tools/props/c04.py',
+                             'replay': {'program': src, 'optional_features': list(dfeats), 'oracle': 'dynamic',
+                                        'roles': {str(k): v for k, v in roles.items()},
+                                        'call': 'f(T, g, cm, [1, 2], o) with T, o the tracer of tools/props/c04.py',
                                         'problems': detail['problems'], 'generated_code': code,
                                         'command': 'cd /verif && bin/check C04 --replay <this file>'}})
         else:
@@ -954,7 +1151,8 @@ def _check(run, tmp):
                 div_example = {'program': src, 'why': detail}
         if i == 3:
             run.sample({'dynamic_program': src})
-    run.extra['dynamic'] = dict(stats, marker_executions_matched=markers)
+    run.extra['dynamic'] = dict(stats, marker_executions_matched=markers, store_stream_programs=nstore,
+                                store_operands_evaluated_in_another_order=impl.reordered)
     if stats['diverged'] or stats['error']:
         # the first example is kept in full (program text + reason), the reasons of all of them are counted
         run.extra['dynamic_divergences'] = {'reasons': div_reasons, 'first_example': div_example}
@@ -985,7 +1183,7 @@ def _check(run, tmp):
         nviol += 1
     if not any(not f['classify'] for f in failures):
         searched = 'static oracle over %d conversions and dynamic oracle over %d programs found no failing input' % (
-            run.extra['conversions'], ndyn)
+            run.extra['conversions'], ndyn + nstore)
         if tie_msg is not None:
             run.violation('translator no longer recognises the converter sources: ' + tie_msg,
                           {'broken_tie': tie_msg, 'searched': searched}, found_input=False)
@@ -1006,8 +1204,10 @@ def _check(run, tmp):
         'is fresh w.r.t. every identifier of the function, hidden ones included; checked by the oracle on every '
         'conversion (scope names of the output vs identifiers of the input) and a scope-looking call under a user '
         'binding of that name is judged as a user call',
-        'slices.py builds part of a template with str.replace; the slice(...) call it adds is not in the table '
-        '(it precedes call_trees, which converts it)',
+        'a node built by a converter with a non-list sequence in a list field (a tuple: entered by no traversal) is '
+        'recognised syntactically at direct ast.<Kind>(...) constructions (translator, fail closed on values that are '
+        'not recognisably lists) and modelled by a_hide / the "#opaque" pseudo-field; nodes built in other ways '
+        '(setattr on an existing node, helpers outside the converter module) are seen only by the oracle',
     ]
 
 
@@ -1159,9 +1359,14 @@ def replay(path):
     os.environ['TMPDIR'] = tmp
     try:
         impl = Impl(tmp)
+        if rp.get('oracle') == 'dynamic':
+            status, detail = run_dynamic(impl, rp['program'], {int(k): v for k, v in rp.get('roles', {}).items()},
+                                         feats=tuple(rp.get('optional_features', [])))
+            print('dynamic oracle now:', status, detail['problems'] if status == 'routing' else detail)
+            return 1 if status == 'routing' else 0
         mod = impl.load(rp['program'])
         out = impl.convert_ast(mod.f, rp.get('optional_features', []))
-        surv = survivors(observe(out, output=True), 'BUILTIN_FUNCTIONS' in rp.get('optional_features', []))
+        surv = survivors(observe(out, output=True), bool({'BUILTIN_FUNCTIONS', 'ALL'} & set(rp.get('optional_features', []))))
         print('surviving native constructs now:', [(o[0], '%s.%s' % (o[2], o[3])) for o in surv])
         return 1 if surv else 0
     finally:
